@@ -586,6 +586,8 @@ def run_history(hid, rng, sccache, model_fn, port, verdict, n_ops, known_ids):
                     if cls in ('hit', 'miss'):
                         stored.add(sig)
             log.append('%s: %s %s -> direct rc=%d' % (note, compiler, ' '.join(args), direct[0]))
+            if os.environ.get('C01_E2E_TRACE'):
+                print('TRACE h%d %s | %s | diffs=%d env=%s' % (hid, note, ' '.join(args)[:90], len(diffs), envx), flush=True)
             if len(verdict.samples) < 6 and verdict.requests % 37 == 1:
                 verdict.samples.append({'compiler': compiler, 'args': args, 'mode': tag, 'note': note})
 
@@ -731,10 +733,17 @@ def run_history(hid, rng, sccache, model_fn, port, verdict, n_ops, known_ids):
         var = rng.choice(['CPATH', 'CPLUS_INCLUDE_PATH' if cxx else 'C_INCLUDE_PATH'])
         first_dir = rng.choice(['sdk1', 'sdk2'])
         other_dir = 'sdk2' if first_dir == 'sdk1' else 'sdk1'
+        # (with the options that switch the preprocessor cache off - dependency files, -Wp, -Xpreprocessor - set aside, so that
+        #  in the histories with preprocessor-cache mode the mode is really in effect for this block)
+        saved_dep, saved_extra = fl.dep, fl.extra
+        fl.dep = []
+        fl.extra = [x for x in fl.extra if not x.startswith(('-Wp,', '-Xpreprocessor', '-DXPDEF'))]
+        do_compile('before the include-path environment is set')
         for dname in (first_dir, other_dir, first_dir):
             envx[var] = dname if rng.chance(1, 2) else os.path.join(tree, dname)
             verdict.count('env-include.' + var)
             do_compile('include path from the environment %s=%s' % (var, dname))
+        fl.dep, fl.extra = saved_dep, saved_extra
         if rng.chance(1, 2):
             del envx[var]
         ops = ['edit_src_same', 'edit_src_diff', 'edit_hdr_same', 'edit_hdr_diff', 'edit_hdr2_same', 'revert', 'define', 'incpath',
